@@ -277,31 +277,51 @@ pub fn gen_cases(seed: u64, n: usize, thorough: bool) -> Vec<String> {
         t.words(&mut w);
         w.join(" ")
     };
-    // exhaustive: structs of 1..k members over a leaf alphabet, flat and with one nested struct / array
-    let leaves: Vec<Ty> = vec![
-        Ty::Sc("Float16"), Ty::Sc("Float32"), Ty::Sc("Float64"), Ty::V("Float32", 2), Ty::V("Float32", 3), Ty::V("Float32", 4),
-        Ty::V("Float16", 3), Ty::V("Float64", 2), Ty::E("UInt32"),
-        Ty::S(vec![Ty::V("Float32", 2), Ty::Sc("Float32")]),
-        Ty::A(2, Box::new(Ty::V("Float32", 3))),
-        Ty::A(2, Box::new(Ty::S(vec![Ty::Sc("Float64"), Ty::Sc("Float32")]))),
-    ];
-    let maxk = if thorough { 4 } else { 3 };
-    for k in 1..=maxk {
-        let mut idx = vec![0usize; k];
-        loop {
-            let t = Ty::S(idx.iter().map(|&i| leaves[i].clone()).collect());
-            out.push(line(0, &t));
-            let mut j = 0;
-            while j < k {
-                idx[j] += 1;
-                if idx[j] < leaves.len() {
-                    break;
+    // exhaustive: every ordered pair (quick) / triple (thorough) of members drawn from the full member alphabet:
+    // every scalar x vector width, arrays of length 1..4 of each, enums, and a few nested structs
+    let scalars = ["Float16", "Int32", "UInt32", "Float32", "Float64"];
+    let mut leaves: Vec<Ty> = Vec::new();
+    for s in scalars {
+        leaves.push(Ty::Sc(s));
+        for n in 2..=4 {
+            leaves.push(Ty::V(s, n));
+        }
+    }
+    let base = leaves.clone();
+    for t in &base {
+        for len in 1..=4u32 {
+            leaves.push(Ty::A(len, Box::new(t.clone())));
+        }
+    }
+    leaves.push(Ty::E("UInt32"));
+    leaves.push(Ty::E("Int32"));
+    leaves.push(Ty::S(vec![Ty::V("Float32", 2), Ty::Sc("Float32")]));
+    leaves.push(Ty::S(vec![Ty::V("Float16", 3)]));
+    leaves.push(Ty::S(vec![Ty::Sc("Float64"), Ty::Sc("Float32")]));
+    leaves.push(Ty::A(2, Box::new(Ty::S(vec![Ty::Sc("Float64"), Ty::Sc("Float32")]))));
+    leaves.push(Ty::A(2, Box::new(Ty::S(vec![Ty::V("Float16", 3)]))));
+    leaves.push(Ty::A(3, Box::new(Ty::S(vec![Ty::V("Float32", 3), Ty::Sc("Float16")]))));
+    for a in &leaves {
+        out.push(line(0, &Ty::S(vec![a.clone()])));
+        for b in &leaves {
+            out.push(line(0, &Ty::S(vec![a.clone(), b.clone()])));
+        }
+    }
+    // triples over the vector/scalar leaves plus length-2/3 arrays of the odd-sized ones
+    let mut small: Vec<Ty> = base.clone();
+    for t in [Ty::V("Float16", 3), Ty::V("Float32", 3), Ty::V("Float16", 2), Ty::Sc("Float16"), Ty::V("Float64", 3)] {
+        small.push(Ty::A(2, Box::new(t.clone())));
+        small.push(Ty::A(3, Box::new(t)));
+    }
+    let step = if thorough { 1 } else { 7 };   // quick: a deterministic 1/7 sample of the triples
+    let mut k = 0usize;
+    for a in &small {
+        for b in &small {
+            for c in &small {
+                k += 1;
+                if k % step == 0 {
+                    out.push(line(0, &Ty::S(vec![a.clone(), b.clone(), c.clone()])));
                 }
-                idx[j] = 0;
-                j += 1;
-            }
-            if j == k {
-                break;
             }
         }
     }
